@@ -30,7 +30,8 @@ ASSUMPTIONS = [
     "the mirror evaluator is the oracle: Python's own operators applied to the current input values",
 ]
 SIZES = {"quick": 1500, "thorough": 10000}
-EXHAUSTIVE_NOTE = "operator table: every binary operator x {node.const, const.node, node.node} x operand values, every unary operator"
+EXHAUSTIVE_NOTE = ("operator table: every binary operator x {node.const, const.node, node.node} x operand values, every unary "
+                   "operator; argument table: pipeline root kind x form of the other operand x read/update/read histories")
 
 
 class Mat:
@@ -68,7 +69,7 @@ MAPS = {"double": lambda v: v * 2, "neg": lambda v: -v}
 
 # input slots: 0,1 int roots; 2 str root; 3 list root; 4,5 Parameters a,b of one object; 6 Parameter c of another; 7 bind(a+b)
 INPUT_TYPES = ["int", "int", "str", "list", "int", "int", "int", "int"]
-_intv = st.integers(-5, 6)
+_intv = st.one_of(st.integers(-5, 6), st.integers(-5, 6), st.just(0))
 _strv = st.sampled_from(["", "a", "ab", "Abc", "aab"])
 _listv = st.lists(st.integers(-3, 3), max_size=4)
 
@@ -98,7 +99,7 @@ def _dag(draw):
             cands += ["logic"]
         k = draw(st.sampled_from(cands))
         if k == "root":
-            i = draw(st.integers(0, 7))
+            i = draw(st.sampled_from([0, 1, 2, 3, 4, 4, 5, 6, 7, 4, 0]))
             nodes.append((["root", i], INPUT_TYPES[i]))
         elif k == "bin":
             op = draw(st.sampled_from(["+", "-", "*", "//", "%", "&", "|", "^", "/", "divmod", "**", "<<", ">>"]))
@@ -113,6 +114,9 @@ def _dag(draw):
                     spec = ["bin", op, left, ["n", draw(st.sampled_from(smalls))]]
                 else:
                     spec = ["bin", op, ["n", a], ["c", draw(st.integers(0, 3))]]
+            elif orient == "nc" and draw(st.integers(0, 2)) == 0:
+                # a Parameter object itself (not wrapped in rx) as the other operand
+                spec = ["bin", op, ["n", a], ["p", draw(st.integers(4, 6))]]
             elif orient == "nc":
                 spec = ["bin", op, ["n", a], ["c", draw(st.integers(-3, 4))]]
             elif orient == "cn":
@@ -219,7 +223,9 @@ def _case(draw):
     # read a node, update an input, read the same node again (the first read populated the caches)
     rur = st.tuples(st.integers(0, n - 1), st.integers(0, 6)).flatmap(
         lambda t: _inputv(INPUT_TYPES[t[1]]).map(lambda v: [["read", t[0]], ["set", t[1], v], ["read", t[0]]]))
-    steps = draw(st.lists(st.one_of(step.map(lambda s: [s]), rur), min_size=1, max_size=6))
+    # read a node; if it raises in plain Python, repair ONE input so that it no longer does, and read again
+    heal = st.integers(0, n - 1).map(lambda i: [["read", i], ["heal", i], ["read", i]])
+    steps = draw(st.lists(st.one_of(step.map(lambda s: [s]), rur, heal), min_size=1, max_size=6))
     flat = [s for group in steps for s in group]
     return {"dag": dag, "inputs": inputs, "watch": draw(st.lists(st.integers(0, n - 1), max_size=2, unique=True)),
             "steps": flat}
@@ -246,6 +252,34 @@ def enumerate_cases(tier):
     for op in UNOPS:
         for a in ints:
             yield {"dag": [["root", 0], ["un", op, 0]], "inputs": [a, 0, "a", [], 1, 2, 3], "watch": [], "steps": [["read", 1]]}
+    # argument table: pipeline root x form of the other operand (another rx root, a raw Parameter of the same / another
+    # object, an rx over a Parameter of the same object) x which side is updated between two reads
+    hist = [["read", -1], ["set", "ARG", 9], ["read", -1], ["set", "ROOT", 4], ["read", -1], ["batch", 5, 6], ["read", -1],
+            ["set", "ARG", 0], ["read", -1], ["set", "ARG", 2], ["read", -1]]
+    for root in (0, 4, 7):
+        for arg in (("n", 1), ("p", 5), ("p", 6), ("n", 5), ("n", 6)):
+            for op in ("+", "//", "-"):
+                for orient in ("na", "an"):
+                    if orient == "an" and arg[0] == "p":
+                        continue        # a raw Parameter as the left operand is not an expression
+                    dag = [["root", root]]
+                    if arg[0] == "n":
+                        dag.append(["root", arg[1]])
+                        other = ["n", 1]
+                    else:
+                        other = ["p", arg[1]]
+                    dag.append(["bin", op, ["n", 0], other] if orient == "na" else ["bin", op, other, ["n", 0]])
+                    last = len(dag) - 1
+                    steps = []
+                    for st_ in hist:
+                        if st_[0] == "read":
+                            steps.append(["read", last])
+                        elif st_[0] == "batch":
+                            steps.append(list(st_))
+                        else:
+                            slot = arg[1] if st_[1] == "ARG" else (root if root != 7 else 4)
+                            steps.append(["set", slot, st_[2]])
+                    yield {"dag": dag, "inputs": [3, 2, "a", [], 1, 2, 3], "watch": [last], "steps": steps}
 
 
 def execute(case):
@@ -282,6 +316,9 @@ def execute(case):
     def rx_operand(o):
         if o[0] == "c":
             return o[1]
+        if o[0] == "p":
+            marks.add("parameter_object_operand")
+            return {4: p.param.a, 5: p.param.b, 6: q.param.c}[o[1]]
         used[o[1]] = used.get(o[1], 0) + 1
         return rxn[o[1]]
 
@@ -399,6 +436,26 @@ def execute(case):
             reads_before_update.add(i)
             updated_since[i] = False
         else:
+            if k == "heal":
+                i = step[1] % len(dag)
+                if not isinstance(_plain_all(dag, input_plain)[i], _Err):
+                    continue
+                found = None
+                for slot in (6, 5, 4, 1, 0, 3, 2):
+                    saved = vals[slot]
+                    for cand in {"int": [2, 1, 3, -1], "str": ["ab", "aab"], "list": [[1, 2, 3], [0, 1, 2, 3]]}[INPUT_TYPES[slot]]:
+                        vals[slot] = cand
+                        if not isinstance(_plain_all(dag, input_plain)[i], _Err):
+                            found = (slot, cand)
+                            break
+                    vals[slot] = saved
+                    if found:
+                        break
+                if not found:
+                    continue
+                step = ["set", found[0], found[1]]
+                k = "set"
+                marks.add("healed_by_single_input")
             before = _plain_all(dag, input_plain)
             for w in watch_log.values():
                 del w[:]
@@ -465,6 +522,8 @@ def _plain_all(dag, input_plain):
         if o[0] == "c":
             v = o[1]
             return list(v) if isinstance(v, list) else v
+        if o[0] == "p":
+            return input_plain(o[1])
         v = out[o[1]]
         if isinstance(v, _Err):
             raise v.e
